@@ -239,6 +239,42 @@ class Ctx:
         self.obligations.append(ob)
         return ob
 
+    def oblige_from(self, name, goal, hyps, kind="post", note=""):
+        """obligation discharged from an explicit list of hypotheses (each one an earlier `require`d obligation of
+        this path, an assumption or a fact) - keeps non-linear queries small"""
+        ob = self.oblige(name, goal, kind, note)
+        if ob.status is None:
+            ob.hyps = [T.zb(h) for h in hyps if h is not True]
+        return ob
+
+    def require_syntactic(self, name, lhs, rhs, kind="post", note=""):
+        """lhs == rhs, discharged by syntactic identity after simplification when possible (no solver search),
+        otherwise as an ordinary obligation; assumed afterwards"""
+        a, b = z3.simplify(T.zr(lhs)), z3.simplify(T.zr(rhs))
+        if z3.eq(a, b):
+            ob = self.oblige(name, True, kind, note)
+            ob.backend = "syntactic identity after z3.simplify"
+        else:
+            ob = self.oblige_linear(name, T.zr(lhs) == T.zr(rhs), kind, note)
+        self.pc.append(T.zr(lhs) == T.zr(rhs))
+        self.pc_notes.append("after " + name)
+        return ob
+
+    def oblige_pure(self, name, goal, kind="lemma", note=""):
+        """closed statement over fresh variables: proved from no hypotheses at all"""
+        ob = self.oblige(name, goal, kind, note)
+        if ob.status is None:
+            ob.hyps = []
+            ob.goal = T.zb(goal)
+        return ob
+
+    def oblige_linear(self, name, goal, kind="post", note=""):
+        """obligation discharged from the hypotheses that contain no non-linear arithmetic (sound: fewer hypotheses)"""
+        ob = self.oblige(name, goal, kind, note)
+        if ob.status is None:
+            ob.hyps = [h for h in ob.hyps if not _nonlinear(h)]
+        return ob
+
     def oblige_without(self, name, goal, excluded, kind="lemma", note=""):
         """obligation whose hypotheses exclude the given formulas (used to prove a lemma that is itself
         available as a fact elsewhere - no circularity)"""
@@ -247,7 +283,7 @@ class Ctx:
             ob.hyps = [h for h in ob.hyps if not any(z3.eq(h, e) for e in excluded)]
         return ob
 
-    def require(self, name, goal, kind="safe", note=""):
+    def require(self, name, goal, kind="safe", note="", assume_form=None):
         """obligation that is *assumed* afterwards (like assert): later code may rely on it"""
         import re as _re
         fn = self.fn_stack[-1] if self.fn_stack else ""
@@ -256,7 +292,7 @@ class Ctx:
                 # declared pre-condition of the function under contract (stated in the evidence), not an obligation
                 self.trusted.add(f"requires[{fn.split('.')[-1]}]: {why}")
                 if goal is not True and goal is not False:
-                    g = T.zb(goal)
+                    g = T.zb(assume_form if assume_form is not None else goal)
                     if self.guards:
                         g = z3.Implies(z3.And(*self.guards), g)
                     self.pc.append(g)
@@ -264,7 +300,7 @@ class Ctx:
                 return None
         ob = self.oblige(name, goal, kind, note)
         if goal is not True and goal is not False:
-            g = T.zb(goal)
+            g = T.zb(assume_form if assume_form is not None else goal)
             if self.guards:
                 g = z3.Implies(z3.And(*self.guards), g)
             self.pc.append(g)
